@@ -343,35 +343,6 @@ example :
 
 /-! ## 7. End-to-end statements for the smoothers whose hypotheses are discharged -/
 
-/-- the smoothers for which the smoothing inequality is proved here -/
-inductive ProvedSmoother (𝕜 : Type u)
-  | gaussSeidel
-  | dampedJacobi (ω : 𝕜)
-  | spai0
-
-/-- pre-sweep matrix family -/
-noncomputable def ProvedSmoother.pre : ProvedSmoother 𝕜 → SmootherFamily 𝕜
-  | .gaussSeidel => gsFam
-  | .dampedJacobi ω => jacobiFam ω
-  | .spai0 => spai0Fam
-
-/-- post-sweep matrix family -/
-noncomputable def ProvedSmoother.post : ProvedSmoother 𝕜 → SmootherFamily 𝕜
-  | .gaussSeidel => gsBackFam
-  | .dampedJacobi ω => jacobiFam ω
-  | .spai0 => spai0Fam
-
-/-- what the smoother needs of every level matrix, beyond SPD -/
-def ProvedSmoother.Q : ProvedSmoother 𝕜 → ∀ n : ℕ, Matrix (Fin n) (Fin n) 𝕜 → Prop
-  | .gaussSeidel => QTrue
-  | .dampedJacobi _ => QWeakDD
-  | .spai0 => QWeakDD
-
-/-- admissible parameters: `0 < ω < 1` for damped Jacobi -/
-def ProvedSmoother.ParamOK : ProvedSmoother 𝕜 → Prop
-  | .dampedJacobi ω => 0 < ω ∧ ω < 1
-  | _ => True
-
 /-- **C02, mathematical clauses — the part that is proved end to end.**
 
 FULL STATEMENT (property text): for `A` SPD, irreducibly diagonally dominant M-matrix, *every* symmetric smoother of
@@ -430,23 +401,6 @@ theorem amg_spd_contracting_partial (sm : ProvedSmoother 𝕜) (hprm : sm.ParamO
   | spai0 =>
     exact (apply_scale spai0Fam spai0Fam hc0 (smoothers_scale hc0 0).2.1 (smoothers_scale hc0 0).2.1 p k A T).2
 
-/-- the transfer operators of the three-level example `4 → 2 → 1` satisfy `Transfers.Good` for every proved smoother -/
-theorem example_transfers_good (sm : ProvedSmoother ℚ) :
-    Transfers.Good sm.Q Example.A4
-      (.cons Example.P4 Example.P4ᵀ (.cons Example.P2 Example.P2ᵀ (.coarsest false))) := by
-  have e1 : Example.P4ᵀ * Example.A4 * Example.P4 = Example.A2 := Example.galerkin42.symm
-  have e2 : Example.P2ᵀ * Example.A2 * Example.P2 = Example.A1 := Example.galerkin21.symm
-  cases sm with
-  | gaussSeidel => exact ⟨trivial, rfl, Example.inj_P4, trivial, rfl, Example.inj_P2, trivial⟩
-  | dampedJacobi ω =>
-    refine ⟨Example.wdd_A4, rfl, Example.inj_P4, ?_⟩
-    rw [e1]; refine ⟨Example.wdd_A2, rfl, Example.inj_P2, ?_⟩
-    rw [e2]; exact Example.wdd_A1
-  | spai0 =>
-    refine ⟨Example.wdd_A4, rfl, Example.inj_P4, ?_⟩
-    rw [e1]; refine ⟨Example.wdd_A2, rfl, Example.inj_P2, ?_⟩
-    rw [e2]; exact Example.wdd_A1
-
 -- SPAI-0, W-cycle with 2+2 sweeps, smoothing on the coarsest level, `pre_cycles = 1`
 example :
     let h := Hier.build (ProvedSmoother.spai0 (𝕜 := ℚ)).pre (ProvedSmoother.spai0 (𝕜 := ℚ)).post Example.A4
@@ -456,7 +410,7 @@ example :
         (c • Example.A4) (.cons Example.P4 Example.P4ᵀ (.cons Example.P2 Example.P2ᵀ (.coarsest false)))).applyB
           ⟨2, 2, 2⟩ 1 = c⁻¹ • h.applyB ⟨2, 2, 2⟩ 1 :=
   amg_spd_contracting_partial .spai0 trivial ⟨2, 2, 2⟩ rfl (by decide) (by decide) (by decide) Example.A4
-    Example.spd_A4 _ (example_transfers_good .spai0)
+    Example.spd_A4 _ (Example.transfers_good .spai0)
 
 -- damped Jacobi ω = 18/25, V-cycle
 example :
@@ -464,6 +418,6 @@ example :
       Example.A4 (.cons Example.P4 Example.P4ᵀ (.cons Example.P2 Example.P2ᵀ (.coarsest false)))
     IsSPD (h.applyB ⟨1, 1, 1⟩ 1) :=
   (amg_spd_contracting_partial (.dampedJacobi (18/25)) ⟨by norm_num, by norm_num⟩ ⟨1, 1, 1⟩ rfl (by decide) (by decide)
-    (by decide) Example.A4 Example.spd_A4 _ (example_transfers_good _)).1
+    (by decide) Example.A4 Example.spd_A4 _ (Example.transfers_good _)).1
 
 end Amgcl.C02b
